@@ -307,16 +307,28 @@ def run_state(case, rec):
     prefix, hist, model = st['prefix'], st['history'], st['model']
     obs = []
     for disp, extra, debug in (('sync', False, False), ('sync', True, False), ('async', False, False), ('async', True, False),
-                               ('sync', False, True), ('async', True, True)):
+                               ('sync', False, True), ('async', True, True), ('sync', 'late', False), ('async', 'late', False)):
         with debug_logging(debug):
             reg = build(prefix, hist)
             d = pjrpc.server.AsyncDispatcher() if disp == 'async' else pjrpc.server.Dispatcher()
             m = dict(model)
-            if extra:
-                # the dispatcher's own registration calls, before and after attaching the registry
-                d.add(f3)
-                m['f3'] = 'f3'
-            d.add_methods(reg)
+            if extra == 'late':
+                # every name is requested BEFORE it exists (-32601), then the methods are registered through the dispatcher's
+                # public registry object, then requested again
+                for name in sorted(m):
+                    r = probe(d, disp == 'async', name)
+                    rec.transitions += 1
+                    if r.get('error', {}).get('code') != -32601:
+                        rec.violation('C15:name that was never registered is reachable', dict(prefix=prefix, history=show(hist), disp=disp, extra=extra, probe=name),
+                                      expected=-32601, observed=r)
+                d.registry.merge(reg)
+                extra = False
+            else:
+                if extra:
+                    # the dispatcher's own registration calls, before and after attaching the registry
+                    d.add(f3)
+                    m['f3'] = 'f3'
+                d.add_methods(reg)
             if extra:
                 # the SAME registry object changes and is attached again: additions and replacements must arrive
                 reg.add(f3, name='late')
